@@ -113,6 +113,19 @@ def check(scn, H, view=None):
         viol('self-locking-flag', got=asm['self_locking'], expected=exp_sl,
              worm_flags={i: sl_flags[i] for i in chain
                          if esi[i]['kind'] == 'WormGear'})
+    # ... and "flagged" means: by the declaration in force, i.e. what the
+    # last accepted worm declaration of each worm gear of the chain computes
+    # from f > cos(alpha)*tan(beta) (a flag that is stale on the element is
+    # C10's violation, a powertrain that follows it is also this one)
+    exp_decl = model.chain_self_locking(chain)
+    if not getattr(model, 'fragile', False) and \
+            asm['self_locking'] is not exp_decl:
+        viol('self-locking-flag/declared', got=asm['self_locking'],
+             expected=exp_decl,
+             declared={i: model.self_locking[i] for i in chain
+                       if esi[i]['kind'] == 'WormGear'},
+             element_flags={i: sl_flags[i] for i in chain
+                            if esi[i]['kind'] == 'WormGear'})
     st['self_locking_' + str(exp_sl)] += 1
     if any(ev['ev'] == 'decl' and ev['exc'] is None and
            (model.driven_by[scn['decls'][ev['k']]['s']] !=
